@@ -499,7 +499,7 @@ pub fn c05_lens_sumvec() {
 //@ tier: quick
 //@ cost: 120
 //@ funcs: Flp::{prove, query, decide} length checks (Histogram(2,1) over GF(17))
-//@ bounds: every argument one element short or long, query randomness also of length 0 and 1 (shorter than the number of validity outputs); contents symbolic
+//@ bounds: every argument one element short or long, query randomness also of length 0 and 1 (shorter than the number of validity outputs); which argument is wrong is symbolic, element values concrete
 //@ asserts: prove/query/decide return an error, never panic
 //@ stubs: alloc::fmt::format
 #[kani::proof]
@@ -508,7 +508,8 @@ pub fn c05_lens_sumvec() {
 pub fn c05_wrong_lengths_refused() {
     let t = Histogram::<Field8, PS>::new(2, 1).unwrap();
     // input 2, prove_rand 2, joint_rand 2, proof 2 + 2*3+1 = 9 .. taken from the instance
-    let z = [any_f(); 12];
+    // element values are concrete: only the lengths matter here, and a refused call must not depend on the contents
+    let z = [Field8::from(3u8); 12];
     let il = t.input_len();
     let pl = t.proof_len();
     let prl = t.prove_rand_len();
@@ -645,4 +646,29 @@ pub fn c05_count_complete() {
     assert!(t.decide(&verifier).unwrap());
     kani::cover!(m);
     core::mem::forget((input, proof, verifier));
+}
+
+// (the same completeness harness for Sum(max 1) did not finish in 3000 s under load and was removed)
+
+//@ harness: c05_count_sound_fixed_point
+//@ prop: C05,C02
+//@ tier: thorough
+//@ cost: 600
+//@ timeout: 3000
+//@ funcs: Flp::{prove, query, decide} (Count over GF(17)) on an INVALID input
+//@ bounds: GF(17); input 2 (not a bit); every prover randomness pair; query randomness 5
+//@ asserts: an honestly generated proof for the invalid input is rejected at this query point for every prover randomness (the circuit output x*x - x = 2 is non-zero)
+//@ stubs: alloc::fmt::format
+#[kani::proof]
+#[kani::unwind(10)]
+#[kani::stub(alloc::fmt::format, fmt_stub)]
+pub fn c05_count_sound_fixed_point() {
+    let t = Count::<Field8>::new();
+    let input = [Field8::from(2u8)];
+    let pr = [any_f(), any_f()];
+    let proof = t.prove(&input, &pr, &[]).unwrap();
+    let verifier = t.query(&input, &proof, &[Field8::from(5u8)], &[], 1).unwrap();
+    assert!(!t.decide(&verifier).unwrap());
+    kani::cover!(true);
+    core::mem::forget((proof, verifier));
 }
